@@ -59,17 +59,21 @@ theorem C18_chain_ends (p q : P3) (drs zs : List ℝ) :
   · rw [chainPoints, ← List.cons_append, List.getLast?_concat]
 
 /-- transmission through a boundary obeys Snell's law and keeps the vertical sense; beyond the critical angle there
-is no path; a reflection mirrors the polar angle -/
+is no path; a reflection first carries the angle to the boundary with Snell's law inside the layer and then mirrors it
+(so the Snell invariant `n sin θ` is kept and the vertical sense reversed); in a uniform layer that is `θ ↦ π − θ` -/
 theorem C18_snell_at_boundary (c : StepCtx) (θ θ' : ℝ) (h2 : c.two = false) (hθ0 : 0 ≤ θ) (hθ1 : θ ≤ Real.pi)
-    (hn : 0 < c.nHere) (hn' : 0 < c.nNext) :
+    (hn : 0 < c.nHere) (hn' : 0 < c.nNext) (hs : 0 < c.nStop) :
     (c.trans = true → stepAngle c θ = some θ' →
         c.nNext * Real.sin θ' = c.nHere * Real.sin θ ∧
         (θ < Real.pi / 2 → 0 ≤ θ' ∧ θ' ≤ Real.pi / 2) ∧ (Real.pi / 2 ≤ θ → Real.pi / 2 ≤ θ' ∧ θ' ≤ Real.pi)) ∧
     (c.trans = true → 1 < Real.sin θ * c.nHere / c.nNext → stepAngle c θ = none) ∧
-    (c.trans = false → stepAngle c θ = some θ' → θ' = Real.pi - θ) := by
+    (c.trans = false → Real.sin θ * c.nHere / c.nStop ≤ 1 → stepAngle c θ = some θ' →
+        c.nStop * Real.sin θ' = c.nHere * Real.sin θ ∧
+        (θ < Real.pi / 2 → Real.pi / 2 ≤ θ' ∧ θ' ≤ Real.pi) ∧ (Real.pi / 2 ≤ θ → 0 ≤ θ' ∧ θ' ≤ Real.pi / 2)) ∧
+    (c.trans = false → c.nHere = c.nStop → stepAngle c θ = some θ' → θ' = Real.pi - θ) := by
   have hsin0 : 0 ≤ Real.sin θ := Real.sin_nonneg_of_nonneg_of_le_pi hθ0 hθ1
   have hx0 : 0 ≤ Real.sin θ * c.nHere / c.nNext := by positivity
-  refine ⟨?_, ?_, ?_⟩
+  refine ⟨?_, ?_, ?_, ?_⟩
   · intro ht hs
     simp only [stepAngle, h2, ht, Bool.false_eq_true, if_false, Bool.false_and, if_true, Rsin, Rasin, Rpi] at hs
     by_cases hgt : Real.sin θ * c.nHere / c.nNext > 1
@@ -89,10 +93,45 @@ theorem C18_snell_at_boundary (c : StepCtx) (θ θ' : ℝ) (h2 : c.two = false) 
         refine ⟨by rw [Real.sin_pi_sub, hsa, key], fun h => absurd h hlt, fun _ => ⟨by linarith, by linarith⟩⟩
   · intro ht hgt
     simp [stepAngle, h2, ht, Rsin, hgt]
-  · intro ht hs
-    simp only [stepAngle, h2, ht, Bool.false_eq_true, if_false, Bool.false_and, Rpi] at hs
-    split_ifs at hs
-    simpa using hs.symm
+  · intro ht hle hst
+    have hy0 : 0 ≤ Real.sin θ * c.nHere / c.nStop := by positivity
+    have hsa := Real.sin_arcsin (by linarith : -1 ≤ Real.sin θ * c.nHere / c.nStop) hle
+    have key : c.nStop * (Real.sin θ * c.nHere / c.nStop) = c.nHere * Real.sin θ := by field_simp
+    have ha0 : 0 ≤ Real.arcsin (Real.sin θ * c.nHere / c.nStop) := Real.arcsin_nonneg.mpr hy0
+    have ha1 := Real.arcsin_le_pi_div_two (Real.sin θ * c.nHere / c.nStop)
+    have hnot : ¬ (1 < Real.sin θ * c.nHere / c.nStop) := not_lt.mpr hle
+    simp only [stepAngle, h2, ht, Bool.false_eq_true, if_false, Bool.false_and, Rsin, Rasin, Rpi, hnot] at hst
+    by_cases hne : c.nHere < c.nStop ∨ c.nStop < c.nHere
+    · simp only [hne, if_true] at hst
+      by_cases hlt : θ < Real.pi / 2
+      · simp only [hlt, if_true] at hst
+        split_ifs at hst
+        simp only [Option.some.injEq] at hst
+        subst hst
+        exact ⟨by rw [Real.sin_pi_sub, hsa, key], fun _ => ⟨by linarith, by linarith⟩, fun h => absurd hlt (not_lt.mpr h)⟩
+      · simp only [hlt, if_false] at hst
+        split_ifs at hst
+        simp only [Option.some.injEq] at hst
+        subst hst
+        refine ⟨?_, fun h => absurd h hlt, fun _ => ⟨by linarith, by linarith⟩⟩
+        rw [show Real.pi - (Real.pi - Real.arcsin (Real.sin θ * c.nHere / c.nStop)) =
+          Real.arcsin (Real.sin θ * c.nHere / c.nStop) by ring, hsa, key]
+    · have heq : c.nHere = c.nStop := by
+        rcases lt_trichotomy c.nHere c.nStop with h | h | h
+        · exact absurd (Or.inl h) hne
+        · exact h
+        · exact absurd (Or.inr h) hne
+      simp only [hne, if_false] at hst
+      split_ifs at hst
+      simp only [Option.some.injEq] at hst
+      subst hst
+      refine ⟨by rw [Real.sin_pi_sub, heq], fun h => ⟨by linarith, by linarith⟩, fun h => ⟨by linarith, by linarith⟩⟩
+  · intro ht heq hst
+    have hne : ¬ (c.nHere < c.nStop ∨ c.nStop < c.nHere) := by
+      rw [heq]; simp
+    simp only [stepAngle, h2, ht, Bool.false_eq_true, if_false, Bool.false_and, Rpi, hne] at hst
+    split_ifs at hst
+    simpa using hst.symm
 
 /-- cutting a uniform medium: with equal indices on both sides the polar angle passes a cut unchanged … -/
 theorem C18_split_uniform_same_angle (c : StepCtx) (θ : ℝ) (h2 : c.two = false) (ht : c.trans = true)
@@ -307,5 +346,5 @@ example : PyrexD.LayerPaths.isBounce 2 [1, 0, 0, 1, 2] false 1 = true ∧
 /-- a transmitting step with distinct indices below the critical angle exists -/
 example : ∃ c : StepCtx, c.two = false ∧ c.trans = true ∧ 0 < c.nHere ∧ 0 < c.nNext ∧
     stepAngle c 0 = some 0 :=
-  ⟨⟨false, true, 1.5, 1.7, false, false, false, false, false⟩, rfl, rfl, by norm_num, by norm_num, by
+  ⟨⟨false, true, 1.5, 1.7, 1.5, false, false, false, false, false⟩, rfl, rfl, by norm_num, by norm_num, by
     simp [stepAngle, Rsin, Rasin, Rpi]; positivity⟩
